@@ -5,7 +5,7 @@ From Coq Require Import Arith Lia.
 From AV Require Import Base.Bytes Base.Outcome Base.Utf8 Base.Radix Hash.HashModel Hash.HashProofs Spec.SpecTypes Spec.SpecOps Spec.Versions
   Xml.Lexer Xml.Parser Xml.LexerProofs Xml.ParserProofs Xml.Funnel Xml.ParserCheck Xml.ParserDepth Xml.Escape
   Xml.RoundTripValues Xml.RoundTripAttrs Xml.RoundTripLexer Xml.StrictValidDef Xml.StrictValid Xml.StrictValidEntities
-  Xml.RoundTripReload Xml.RoundTripCanonFinal Xml.RoundTripSetVersion Xml.Reading Xml.ReadingLexer Xml.ReadingInterp.
+  Xml.RoundTripReload Xml.RoundTripCanonFinal Xml.RoundTripSetVersion Xml.FunnelParser Xml.Reading Xml.ReadingLexer Xml.ReadingInterp.
 Open Scope list_scope.
 Open Scope N_scope.
 
@@ -722,6 +722,15 @@ Proof.
     assert (VV : p_version s4 = v401) by (rewrite V4, V3, V1; reflexivity).
     rewrite VV in F2. split; [exact F2|].
     assert (VF : p_version s11 = ver) by (rewrite V11, V10; reflexivity). rewrite VF. split; [exact HDR|]. split; [exact IK|exact STO].
+Qed.
+
+(* both modes: a lenient load without warnings is a strict load (C08_agree) *)
+Theorem load_faithful_clean (b : bool) bs t st :
+  load b T tab_el tab_at tab_en check_fn float_parse bs = Val (Ret t st) -> p_warnings st = [] ->
+  exists d, Reads bs d /\ InterpDoc T tab_el tab_at tab_en check_fn float_parse d (p_version st) t.
+Proof.
+  intros L W. apply load_faithful. destruct b; [exact L|].
+  destruct (load_agree T tab_el tab_at tab_en check_fn float_parse bs) as (A & _). exact (A t st L W).
 Qed.
 
 End Faithful.
